@@ -12,7 +12,7 @@ CLAIM = {
     "text": "Lean theorems for all token lists / pointer strings without leading blanks or backslashes: print(parse s) = s, "
             "tokens(parse(spell ts)) = ts, equality is equality of reference tokens for every constructor (parse, from_parts, join, parent), "
             "join/parent/relative/resolve laws; model tied to pointer.py by differential execution over ALL token sequences of length <= 3 "
-            "over an 19-token alphabet and join/parent chains, and the laws are evaluated directly on the implementation.",
+            "over an 21-token alphabet and join/parent chains, and the laws are evaluated directly on the implementation.",
     "note": "Trusted: Lean kernel; model JP.Pointer validated differentially; unicode-escape codec abstract (fast path modelled); "
             "int-like tokens beyond +-(2^53-1) excluded (constructor rejects them: known finding C04-KF1).",
     "technique": "Lean 4 round-trip and navigation theorems on the pointer model + differential correspondence",
@@ -28,7 +28,7 @@ TRUSTED = [
 ASSUMPTIONS = ["pointer strings without leading blanks and without backslashes (as the property states)",
                "integer-like tokens within +-(2**53-1)"]
 
-ALPHABET = ["~", "/", "0", "1", "-", "+", " ", "#", "é", "a", "", "~0", "~1", "~01", "01", "-1", "+1", "1_0", "１"]
+ALPHABET = ["~", "/", "0", "1", "-", "+", " ", "#", "é", "a", "", "~0", "~1", "~01", "01", "-1", "+1", "1_0", "１", "1１", "1٠"]
 
 
 def _seqs(ctx):
@@ -39,7 +39,7 @@ def _seqs(ctx):
     if ctx.tier == "quick":
         l3 = ctx.rng.sample(l3, 1200)
     else:
-        ctx.exhaustive_spaces.append("all token sequences of length <= 3 over a 19-token alphabet")
+        ctx.exhaustive_spaces.append("all token sequences of length <= 3 over a 21-token alphabet")
     out += l3
     extra = 200 if ctx.tier == "quick" else 3000
     for _ in range(extra):
